@@ -211,7 +211,7 @@ def check_cli(case):
     viol = []
     r = proc.run_cli(["up", "--migrate", "--format", "json", "-v"], cwd=base)
     try:
-        j = json.loads(r["stdout"][r["stdout"].index("\n{"):])
+        j = proc.json_document(r["stdout"])
         got = {}
         for m in j["merchants"]:
             for raw in (m.get("raw_descriptions") or {}):
